@@ -33,7 +33,12 @@ const (
 
 var kindNames = [...]string{"begin", "get", "set", "delete", "cursor", "seek", "next", "valid", "item", "cursorclose", "commit", "rollback"}
 
-func (k Kind) String() string { return kindNames[k] }
+func (k Kind) String() string {
+	if int(k) >= len(kindNames) {
+		return "none"
+	}
+	return kindNames[k]
+}
 
 // Faultable: the six kinds of store call property C04 names.
 func (k Kind) Faultable() bool {
@@ -69,6 +74,11 @@ type Store struct {
 	openCur  int
 	Trace    []Call // recorded when Record is on
 	Record   bool
+	// PoisonAfterTx: values and keys handed out by Get / Item are private copies that are overwritten with garbage
+	// when their transaction ends. bbolt hands out slices of its memory map that are only valid during the
+	// transaction (it is free to reuse the page for anything afterwards): with this flag any use of store memory
+	// after the transaction shows deterministically instead of only when a page happens to be recycled.
+	PoisonAfterTx bool
 	// Poisoned: a leaked transaction was observed at some point; the instance must be abandoned, never closed
 	Poisoned bool
 
@@ -199,10 +209,27 @@ type vtx struct {
 	id     int
 	update bool
 	done   bool
+	lent   [][]byte
+}
+
+// lend returns what the caller may look at until the transaction ends.
+func (t *vtx) lend(b []byte) []byte {
+	if !t.s.PoisonAfterTx || len(b) == 0 {
+		return b
+	}
+	c := append([]byte{}, b...)
+	t.lent = append(t.lent, c)
+	return c
 }
 
 func (t *vtx) finish() {
 	if !t.done {
+		for _, b := range t.lent {
+			for i := range b {
+				b[i] = 0xDE
+			}
+		}
+		t.lent = nil
 		t.done = true
 		t.s.mu.Lock()
 		delete(t.s.openTx, t.id)
@@ -225,7 +252,8 @@ func (t *vtx) Get(key []byte) ([]byte, error) {
 	if fail {
 		return nil, ErrInjected
 	}
-	return t.tx.Get(key)
+	v, err := t.tx.Get(key)
+	return t.lend(v), err
 }
 
 func (t *vtx) Delete(key []byte) error {
@@ -309,7 +337,9 @@ func (c *vcur) Item() (store.Item, error) {
 	if fail {
 		return store.Item{}, ErrInjected
 	}
-	return c.c.Item()
+	it, err := c.c.Item()
+	it.Key, it.Value = c.t.lend(it.Key), c.t.lend(it.Value)
+	return it, err
 }
 
 func (c *vcur) Close() error {
